@@ -743,11 +743,51 @@ def _rebuild(ck, p):
     ok = False
     detail = "assignments to doc_state.linter: %d; dictionary comparisons: %d" % (len(asg), len(ne))
     for bi, s in asg:
-        g = gate_for(f, cfg, bi, lambda t: def_of(t).endswith("cmp::PartialEq::ne") and "dict" in arg_fields(pv, t["args"][0]), want=True)
+        g = gate_for(f, cfg, bi, lambda t: def_of(t).endswith("cmp::PartialEq::ne") and any(x.endswith("dict") and "ident" not in x for x in arg_fields(pv, t["args"][0])), want=True)
         new_group = any(o[0] == "call" and last(norm(o[3] or "")) in ("new_curated", "with_lint_config") for o in arg_roots(f, pv, s["rv"]["op"])) if s["rv"]["k"] == "use" else False
         if g and new_group:
             ok = True
     ck.decide(rule, "Backend::update_document", ok, f.span, detail + "; a new LintGroup is stored under `doc_state.dict != dict`: %s" % ok)
+    # the field that is compared with the freshly generated dictionary holds nothing but such a dictionary
+    cmps = []
+    for bi, t in ne:
+        fl = [x for x in arg_fields(pv, t["args"][0]) if x.endswith("dict") and "ident" not in x]
+        fresh = {o for o in arg_roots(f, pv, t["args"][1]) if o[0] == "call" and last(norm(o[3] or o[2] or "")) == "generate_file_dictionary"}
+        if fl and fresh:
+            cmps.append((fl[0], t))
+    if len(cmps) != 1:
+        ck.undecided(rule, "Backend::update_document:compared-field", f.span, "expected one comparison of a DocumentState dictionary field with the freshly generated dictionary, found %d" % len(cmps))
+    else:
+        fld, ct = cmps[0]
+        others = []
+        n_w = 0
+        for g2 in p.fns.values():
+            if not g2.name.startswith("harper_ls::backend::"):
+                continue
+            gv = None
+            for b in g2.blocks:
+                if b["cleanup"]:
+                    continue
+                for sx in b["s"]:
+                    if sx["k"] != "assign" or len(sx["lhs"]) < 2:
+                        continue
+                    fp = [e[2] for e in sx["lhs"][1:] if isinstance(e, list) and e[0] == "f"]
+                    if not fp or fp[-1] != fld or "DocumentState" not in (g2.local_tystr(sx["lhs"][0]) or ""):
+                        continue
+                    n_w += 1
+                    gv = gv or Prov(g2)
+                    op = sx["rv"].get("op") if sx["rv"]["k"] == "use" else None
+                    roots = arg_roots(g2, gv, op) if op else set()
+                    names = {last(norm(o[3] or o[2] or "")) for o in roots if o[0] == "call"}
+                    same_fn = g2 is f
+                    if not same_fn or not ({"generate_file_dictionary"} & names) or ({"add_dictionary", "merged"} & names):
+                        # a value assembled elsewhere (e.g. the file dictionary with the identifiers merged in)
+                        others.append((g2, sx["ln"], sorted(names)[:5]))
+        if others:
+            g2, ln, names = others[0]
+            ck.refuted(rule, "Backend::update_document:compared-field", g2.loc(ln), "update_document decides whether to rebuild the linter by comparing doc_state.%s with the freshly generated file dictionary, but %s also stores a differently assembled dictionary in that field (%s): from then on the comparison always differs, every update rebuilds the linter from the bare file dictionary, and what had been merged in (the document's identifiers - their dictionary is unchanged, so it is not merged again) is lost: the same text gets other diagnostics on its second update than on its first" % (fld, keyname(p, g2), ", ".join(names)))
+        else:
+            ck.proved(rule, "Backend::update_document:compared-field", f.loc(ct["ln"]), "doc_state.%s is compared with the freshly generated file dictionary and only ever assigned that dictionary (%d assignments)" % (fld, n_w))
     # the WebAssembly binding keeps one long-lived LintGroup as well: same clause, rule instance of R-C16-samedoc
     from . import c16
     c16.import_words_sync(_Sub(ck, rule, "wasm:"), fns_by_key(p), rule)
